@@ -491,10 +491,33 @@ package commitlog
 // entryOffAt(idx, i): the offset recorded in slot i of the index (what ReadEntryAtLogOffset decodes; assumed)
 //@ pure func entryOffAt(idx *index, i int64) int64
 //@ pure func entryCount(idx *index) int64 = idx.position / 20
-//@ assume func (*index).ReadEntryAtLogOffset
+//@ assume func (*index).ReadEntryAtFileOffset
+//@   modifies e.Offset, e.Timestamp, e.Position, e.Size
+//@   ensures (result == nil) <==> (0 <= fileOffset && fileOffset + 20 <= idx.position)
+//@   ensures result == nil && fileOffset % 20 == 0 ==> e.Offset == entryOffAt(idx, fileOffset / 20)
+//@   ensures result != ErrEntryNotFound
+//@ func (*index).ReadEntryAtLogOffset serves C08, C10, C11, C01
+//@   requires idx != nil && e != nil && idx.position >= 0
 //@   modifies e.Offset, e.Timestamp, e.Position, e.Size
 //@   ensures (result == nil) <==> (0 <= logOffset && logOffset < entryCount(idx))
 //@   ensures result == nil ==> e.Offset == entryOffAt(idx, logOffset)
+//@ func (*index).Position serves C08, C10, C01
+//@   requires idx != nil
+//@   modifies nothing
+//@   ensures result == idx.position
+
+// findEntry: the first index entry whose offset is >= the argument - whatever offsets the (possibly compacted,
+// sparse) index holds; ErrEntryNotFound iff there is none
+//@ func (*segment).findEntry$1 serves C08, C10, C01, C03
+//@   ensures 0 <= i && i < entryCount(s.Index) ==> result == (entryOffAt(s.Index, i) >= offset)
+//@ func (*segment).findEntry serves C08, C10, C01, C03
+//@   returns (ent, err)
+//@   requires s != nil && s.Index != nil && s.Index.position >= 0
+//@   assumes forall i int64, j int64 :: 0 <= i && i < j && j < entryCount(s.Index) ==> entryOffAt(s.Index, i) < entryOffAt(s.Index, j)
+//@   ensures [at-or-above] err == nil ==> ent != nil && ent.Offset >= offset
+//@   ensures [is-an-entry] err == nil ==> (exists k int64 :: 0 <= k && k < entryCount(s.Index) && ent.Offset == entryOffAt(s.Index, k))
+//@   ensures [first-such] err == nil ==> (forall i int64 :: 0 <= i && i < entryCount(s.Index) && entryOffAt(s.Index, i) >= offset ==> ent.Offset <= entryOffAt(s.Index, i))
+//@   ensures [none] err == ErrEntryNotFound ==> (forall i int64 :: 0 <= i && i < entryCount(s.Index) ==> entryOffAt(s.Index, i) < offset)
 //@ func newReverseIndexScanner serves C08, C10, C11
 //@   ensures result != nil && fresh(result) && result.idx == idx && result.offset == startOffset
 //@ func newReverseSegmentScanner serves C08, C10, C11
@@ -504,6 +527,7 @@ package commitlog
 //@   ensures [slot-in-range] -1 <= result.ris.offset && result.ris.offset < entryCount(segment.Index)
 //@   ensures [starts-at-last-entry-at-or-below] forall i int64 :: 0 <= i && i < entryCount(segment.Index) ==> ((i <= result.ris.offset) <==> (entryOffAt(segment.Index, i) <= startOffset))
 //@ func newReverseSegmentScanner$1 serves C08, C10, C11
+//@   assumes segment != nil && segment.Index != nil && segment.Index.position >= 0 && e != nil
 //@   ensures result == (i < 0 || i >= entryCount(segment.Index) || entryOffAt(segment.Index, i) > startOffset)
 
 // ---------------------------------------------------------------------------------------------
